@@ -22,7 +22,7 @@ def configs(ctx: Ctx) -> list[dict]:
     seeds = [2] if ctx.quick else [2, 11, 23]
     for mi, mod in enumerate(e2e.MODULES):
         for ai, (alg, metrics) in enumerate(algs):
-            if ctx.quick and (mi + ai) % 3 != 0:
+            if ctx.quick and (mi + ai) % 3 != 0 and not (mod == "c_report" and ai in (0, 4)):
                 continue
             for seed in seeds:
                 out.append({"module": mod, "seed": seed + mi, "algorithm": alg, "iterations": 3,
@@ -37,6 +37,24 @@ def rat(x) -> dict:
 
 def pair(p) -> dict:
     return {"cov": int(p[0]), "ex": int(p[1])} if p else {"cov": 0, "ex": 0}
+
+
+def xml_lines(run: dict) -> list[dict]:
+    """<line number, hits> of the cov_report.xml the run rendered."""
+    import xml.etree.ElementTree as ET  # noqa: PLC0415
+    from pathlib import Path  # noqa: PLC0415
+
+    f = Path(run["dir"]) / "report" / "cov_report.xml"
+    if not f.exists():
+        return []
+    text = f.read_text().split("?>", 1)[-1]
+    if text.lstrip().startswith("<!DOCTYPE"):
+        text = text.split(">", 1)[1]
+    try:
+        root = ET.fromstring(text)
+    except ET.ParseError:
+        return []
+    return [{"line": int(ln.get("number")), "hits": int(ln.get("hits"))} for ln in root.iter("line")]
 
 
 def project(run: dict) -> dict | None:
@@ -56,6 +74,7 @@ def project(run: dict) -> dict | None:
         "ind_b": {"cov": rep["tracked"]["branch_covered"], "ex": rep["tracked"]["branch_existing"]},
         "ind_l": {"cov": rep["tracked"]["line_covered"], "ex": rep["tracked"]["line_existing"]},
         "covered_lines": rep["tracked"]["covered_lines"],
+        "xml": xml_lines(run),
         "ann": [{"line": a["line"], "b": pair(a["branches"]), "bl": pair(a["branchless"]), "l": pair(a["lines"]),
                  "t": pair(a["total"])} for a in rep["annotations"]],
     }
